@@ -253,3 +253,28 @@ PROPS["C10"] = dict(
     level_note="Sequence length 3 with a generate after each step; header/claim values from a small universe (C15 covers the value space).",
     design_ref="DESIGN.md section 7, C10",
 )
+
+
+PROPS["C05"] = dict(
+    level="model_checking", exhaustive=False,
+    stages=lambda tier, seed: [
+        mc("trees", "MC_C05", "MC_C05_%s.cfg" % tier, expand=G.c05_trees, target_ops=20000),
+        mc("ecdsa", "MC_C05", "MC_C05_ec_%s.cfg" % tier, expand=G.repeat_tail(2, 500 if tier == "quick" else 20000, 250)),
+    ],
+    rule="from MC_C05: (key, algorithm) pairs of every supported type x (signing provider, verifying provider) in "
+         "{openssl, gnutls}^2 x header tree class x claim tree class {flat, nested depth 6, unicode (+ empty, 63-bit "
+         "integers, strings to 64 KiB in thorough)} x time configuration {default, exp+nbf offsets with clock advance, "
+         "iat off}; generate, then verify on a checker holding the public form with a callback that reads header and "
+         "claims. JSON trees are seeded random per case; what the builder was given, what the token carries and what "
+         "the callback read are digested by one canonicaliser (sorted, compact) after removing alg/typ/iat/nbf/exp, "
+         "which are compared member by member. Stage 'ecdsa': 500 (quick) / 20000 (thorough) generate+verify pairs "
+         "per curve and signing provider; coverage.short_rs counts signatures whose r or s has a leading zero byte. "
+         "distinct = distinct scripts.",
+    assumptions=ASSUME_COMMON + ["JSON equality is decided on SHA-256 digests of jansson's canonical dump computed by the driver for all three sides"],
+    level_text="The behaviour matrix (key/alg x provider pair x tree class x time configuration) is enumerated by TLC, "
+               "which also shows that on the specification every generated token is accepted by the matching checker; "
+               "values inside a tree class are sampled. Each behaviour is executed: generate must succeed, the token "
+               "must verify under the other provider too, and builder-given = token = callback-read content.",
+    level_note="Fixture keys (fresh keys are used by the C08/C20 checks); tree contents sampled, not enumerated.",
+    design_ref="DESIGN.md section 7, C05",
+)
